@@ -282,16 +282,21 @@ CompactSwap ==
 
 -----------------------------------------------------------------------------
 \* checkpoints
-Checkpoint ==
+CheckpointR(race) ==
   /\ ~rd.on /\ nck < MaxCkpt /\ nck' = nck + 1
   /\ LET id == nck + 1 + 10 * nre    \* caller-chosen, never repeated
      IN /\ ckpts' = Append(ckpts, [id |-> id, lv |-> lv, latest |-> latest, walId |-> wal.id,
                                    after |-> latest, lastSeq |-> seq])
         /\ saves' = saves \cup {[id |-> id, walId |-> wal.id, content |-> WalContent(wal), stage |-> "wal"]}
         /\ snapAt' = Override(snapAt, [i \in {id} |-> oracle])
-        /\ Log([a |-> "Checkpoint", id |-> id, snap |-> oracle])
+        \* race: the replayer lets a flush / compaction parked before its swap go at the first storage call inside
+        \* DB.Checkpoint. Checkpoint is one critical section (db.mu), so the swap can only take effect after it: the
+        \* flag is a scheduling hint in the history, not state.
+        /\ Log([a |-> "Checkpoint", id |-> id, snap |-> oracle, race |-> race])
   /\ wal' = WalRotate(wal)
   /\ UNCHANGED <<seq, mem, lv, latest, flushQ, flush, compQ, comp, nextTid, pendRm, files, returned, rd, oracle, nops, nrd, nre, nrt, zombies, ngc, dropped, nfl, objs>>
+
+Checkpoint == \E race \in BOOLEAN : CheckpointR(race)
 
 SaveWal(sv) ==
   /\ sv \in saves /\ sv.stage = "wal"
